@@ -134,6 +134,7 @@ func init() {
 			c.P["composition"] = int64(r.IntN(2))
 			c.P["index_absent"] = int64(r.IntN(4) / 3)
 			c.P["rofail"] = int64([]int{0, 0, 1, 2}[r.IntN(4)])
+			c.P["stale"] = int64(r.IntN(3) / 2)
 			_ = u
 			return c
 		},
@@ -146,8 +147,13 @@ func evalC15(t *testing.T, c *Case, st *Stats, relax Relax) *Violation {
 		return nil
 	}
 	return RunSeq(t, c, st, relax, seqOpts{}, func(x *SeqCtx) *Violation {
-		// 1. populate
-		for _, op := range c.Progs[0] {
+		// 1. populate (an index snapshot taken half-way is the "stale index" of scenario 2c)
+		staleIdx := ""
+		for i, op := range c.Progs[0] {
+			if i == (len(c.Progs[0])+1)/2 && c.Param("stale", 0) == 1 && len(x.Ex.H) == 0 {
+				staleIdx = x.W.NewIndexPath()
+				copyFile(x.W.Index, staleIdx)
+			}
 			x.Ex.Do(op)
 		}
 		x.Ex.CloseAll()
@@ -196,6 +202,39 @@ func evalC15(t *testing.T, c *Case, st *Stats, relax Relax) *Violation {
 				}
 				if ferr == nil || !errors.Is(ferr, os.ErrPermission) {
 					return &Violation{Prop: c.Prop, Oracle: "mutator-not-refused-with-permission-error", Detail: fmt.Sprintf("read-only first open over %s: Initialize would have to create a root and must fail with a permission error, it returned %v", what, ferr)}
+				}
+			}
+		}
+		// 2c. a read-only instance over an index that is PRESENT but behind the tape (crash between append
+		// and index update): only a missing index may be built on first open, a stale one stays as it is
+		if staleIdx != "" {
+			so := OpenOpts{ReadOnly: true, NoWriteOps: c.Param("composition", 0) == 1, Index: staleIdx}
+			pre := so
+			pre.NoInit = true
+			rowsBefore := ""
+			if pst, err := x.W.Open(pre); pst != nil {
+				if err == nil {
+					rowsBefore = dumpAllRows(pst)
+				}
+				pst.Close()
+			}
+			tapeBefore, _ := os.ReadFile(x.W.Drive)
+			sst, serr := x.W.Open(so)
+			if sst != nil {
+				rowsAfter := dumpAllRows(sst)
+				Observe(sst.FS, "/", ObsOpts{})
+				rowsAfterReads := dumpAllRows(sst)
+				sst.Close()
+				tapeAfter, _ := os.ReadFile(x.W.Drive)
+				x.Stats.Add("read_only_open_over_stale_index", 1)
+				if serr == nil && rowsBefore != "" && rowsAfter != rowsBefore {
+					return &Violation{Prop: c.Prop, Oracle: "read-only-changes-index", Detail: "opening a read-only instance over an existing index that is behind the tape changed the index rows (only a missing index may be built)"}
+				}
+				if serr == nil && rowsAfterReads != rowsAfter {
+					return &Violation{Prop: c.Prop, Oracle: "read-only-changes-index", Detail: "reading through a read-only instance over a stale index changed the index rows"}
+				}
+				if !bytes.Equal(tapeBefore, tapeAfter) {
+					return &Violation{Prop: c.Prop, Oracle: "read-only-changes-tape", Detail: "read-only instance over a stale index changed the tape"}
 				}
 			}
 		}
